@@ -461,6 +461,11 @@ impl<'this> InternalOptimisingLineFormatter<'this, '_> {
             ),
         };
 
+        // the same holds when the multiline token is the first of its line
+        let last_line_length = self
+            .multiline_last_line_len(first_token_index)
+            .unwrap_or(last_line_length);
+
         let invariants = self.get_formatting_invariant(0, line.1);
         if let (Some(DR::MustNotBreak), NL::Break) | (Some(DR::MustBreak), NL::Continue) =
             (invariants, new_line.to_raw())
@@ -1133,6 +1138,19 @@ impl<'this> InternalOptimisingLineFormatter<'this, '_> {
             .map(|decision| decision.last_line_length)
     }
 
+    /// Multiline tokens necessarily have a break in them, so the length of
+    /// the line they end is that of their last line.
+    fn multiline_last_line_len(&self, token_index: usize) -> Option<u32> {
+        let (token, _) = self.formatted_tokens.get_token(token_index)?;
+        if !matches!(
+            token.get_token_type(),
+            TT::TextLiteral(TextLiteralKind::MultiLine) | TT::Comment(CommentKind::MultilineBlock)
+        ) {
+            return None;
+        }
+        (token.get_content().lines().skip(1).last()).map(|last_line| last_line.len() as u32)
+    }
+
     fn get_token_line_length(
         &self,
         starting_ws: LineWhitespace,
@@ -1140,18 +1158,8 @@ impl<'this> InternalOptimisingLineFormatter<'this, '_> {
         decision: Decision,
         token_index: Option<usize>,
     ) -> u32 {
-        if let Some((
-            TT::TextLiteral(TextLiteralKind::MultiLine) | TT::Comment(CommentKind::MultilineBlock),
-            token_content,
-        )) = token_index
-            .and_then(|index| self.formatted_tokens.get_token(index))
-            .map(|(token, _)| (token.get_token_type(), token.get_content()))
-        {
-            // Multiline tokens necessarily have a break in them, so the line
-            // length must be calculated.
-            if let Some(last_line) = token_content.lines().skip(1).last() {
-                return last_line.len() as u32;
-            }
+        if let Some(last_line_len) = token_index.and_then(|index| self.multiline_last_line_len(index)) {
+            return last_line_len;
         }
         match (
             decision,
